@@ -30,55 +30,125 @@ SHRINK_S = {"quick": 20, "thorough": 120}
 DEADLINE_S = {"quick": 600, "thorough": 3000}
 TOL_VM = 1e-6
 TOL_VA = 1e-6
-RULE = ("TODO")
-ASSUMPTIONS = ["TODO"]
+RULE = ("Hypothesis draws a meshed netgen.grid network (1-3 voltage levels, 4-16 buses, lines with c/g/parallel/df, impedances, "
+        "transformers with ratio taps and NO phase shift, loads, sgens, gens, shunts, 1-2 ext_grids, custom bus labels, sn_mva "
+        "0.5..1000), an equivalent type (ward/xward/rei, rei with drawn sgen/load/gen_separate) and a region: BFS ball (radius "
+        "0-2) around a drawn supplied bus, boundary = frontier of the ball inside ('inner') or outside ('outer'), all internal "
+        "buses or only the seed bus handed over, boundary handed over with/without the buses fused to it by bus-bus switches. "
+        "Mode 'clean' (about half of the cases) stays inside the shapes get_equivalent handles; every other mode adds exactly ONE "
+        "feature family to it: slack generator, bus-bus switches, impedance switches, open line/trafo switches + out-of-service "
+        "elements, ZIP loads, storage/motor/scaling, ward/xward elements, rei with several element kinds at one bus, rei with "
+        "asymmetric impedances, phase-shifting transformers (ward/xward only), boundary buses without external neighbour, "
+        "three-winding transformers. "
+        "Oracle: the expected internal/boundary/external bus groups are computed by own graph code (incl. the move of external "
+        "slack buses to the boundary when no slack is retained); get_equivalent(return_internal=True) must not raise (other than "
+        "LoadflowNotConverged), must keep every internal and boundary bus, and runpp(calculate_voltage_angles=True, dc init, tight "
+        "tolerance) on the returned net must give vm_pu / va_degree at these buses equal to the original within 1e-6 p.u. / 1e-6 "
+        "degree (a deviation within 100x the tolerance is re-evaluated with a tight-tolerance runpp_fct before it counts); input "
+        "tables (oracles.snapshot) and result tables of the original net are unchanged, also when get_equivalent raises. "
+        "A failure signature names the first matching root-cause fact of the input (facts()) or 'other'. "
+        "Non-trivial = an equivalent was built and compared and the external area holds >= 1 in-service generation element "
+        "(sgen/gen/ext_grid) and >= 1 in-service consumption element (load/motor/storage/ward/xward/shunt); distinct by case hash.")
+ASSUMPTIONS = ["tolerance 1e-6 p.u. / 1e-6 degree (doc/gridequivalent/gridequivalent_example.rst: 'smaller than 1e-6 pu or degree'); "
+               "clean cases measured <= 1e-8",
+               "no phase shift (shift_degree, tap_step_degree) for rei: documented 'Known REI equivalents problems'; ward/xward "
+               "with phase shift only in mode phase-shift",
+               "all buses supplied: cases with unsupplied buses are skipped (log message of _check_network: 'suggested to remove "
+               "them ... before starting the grid equivalent calculation'); bus in_service flags are never False",
+               "at most one ext_grid / slack gen per bus ('assert ... only one slack at individual bus' in ward_generation.py)",
+               "no dclines, no unsupplied islands, no asymmetric_load/sgen, no controllers, no cost functions, return_internal=True, "
+               "ward_type='ward_injection', adapt_va_degree=False (defaults)",
+               "LoadflowNotConverged inside get_equivalent is a legal outcome (skipped); non-convergence of the power flow on the "
+               "returned equivalent is a failure",
+               "the power flow on the equivalent starts from the DC initialisation (runpp default with calculate_voltage_angles), "
+               "not from the results stored in the returned net"]
+TECHNIQUE = "property-based testing: generated networks + generated internal/boundary split, metamorphic oracle (equivalent vs. original power flow) + snapshot invariant"
 
 LEVEL_SETS_1 = [[110.0], [110.0], [20.0], [10.0], [220.0]]
 LEVEL_SETS_2 = [[110.0, 20.0], [220.0, 110.0], [380.0, 110.0], [110.0, 10.0], [110.0, 20.0, 0.4], [220.0, 110.0, 10.0]]
+LEVEL_SETS_3 = [[110.0, 20.0, 0.4], [380.0, 110.0, 20.0], [220.0, 110.0, 10.0]]
 
-BASE = dict(nb_level=(4, 9), nb_max=16, extra_branches=(1, 3), oos=0.0, switches=False, switch_z=False,
-            noslack_island=False, dcline=False, zip=False, trafo3w=False, scaling=False, second_slack=True,
-            shifts=(0.0,), tap_types=(None, "Ratio", "Symmetrical"), custom_index=True,
-            branch_kinds={"line": 9, "impedance": 1, "bb": 0},
-            bus_kinds={"load": 6, "sgen": 3, "gen": 2, "storage": 0, "shunt": 1, "ward": 0, "xward": 0, "motor": 0,
-                       "asymmetric_load": 0, "asymmetric_sgen": 0})
-PROFILES = {
-    "plain1": netgen.profile(level_sets=LEVEL_SETS_1, **BASE),
-    "plain2": netgen.profile(level_sets=LEVEL_SETS_2, **BASE),
+KINDS = {"load": 6, "sgen": 3, "gen": 2, "storage": 0, "shunt": 1, "ward": 0, "xward": 0, "motor": 0,
+         "asymmetric_load": 0, "asymmetric_sgen": 0}
+BASE = dict(level_sets=LEVEL_SETS_1 + LEVEL_SETS_2, nb_level=(4, 9), nb_max=16, extra_branches=(1, 3), oos=0.0,
+            switches=False, switch_z=False, noslack_island=False, dcline=False, zip=False, trafo3w=False, scaling=False,
+            second_slack=True, slack_gen=True, shifts=(0.0,), tap_types=(None, "Ratio", "Symmetrical"), custom_index=True,
+            branch_kinds={"line": 9, "impedance": 1, "bb": 0}, bus_kinds=KINDS)
+
+
+def _prof(**kw):
+    d = dict(BASE)
+    d.update(kw)
+    return netgen.profile(**d)
+
+
+# "clean" = the shapes get_equivalent is written for; every other mode adds ONE family of features to it
+MODES = {
+    "clean": _prof(),
+    "slack-gen": _prof(),
+    "bus-bus-switch": _prof(switches=True, open_prob=0.0, branch_kinds={"line": 8, "impedance": 1, "bb": 3}),
+    "impedance-switch": _prof(switches=True, switch_z=True, open_prob=0.0, branch_kinds={"line": 8, "impedance": 1, "bb": 3}),
+    "open-switch+oos": _prof(switches=True, open_prob=0.3, oos=0.12),
+    "zip": _prof(zip=True),
+    "storage+motor+scaling": _prof(scaling=True, bus_kinds=dict(KINDS, storage=3, motor=3)),
+    "ward+xward-elements": _prof(bus_kinds=dict(KINDS, ward=3, xward=3)),
+    "rei-mixed-bus": _prof(),
+    "rei-asymmetric-impedance": _prof(branch_kinds={"line": 7, "impedance": 3, "bb": 0}),
+    "phase-shift": _prof(level_sets=LEVEL_SETS_2, shifts=(30.0, 150.0, 0.0, -30.0)),
+    "detached-boundary": _prof(),
+    "trafo3w": _prof(level_sets=LEVEL_SETS_3, trafo3w=True, nb_level=(2, 6)),
 }
+MODE_WEIGHTS = {m: (12 if m == "clean" else 1) for m in MODES}
+REI_KIND = {"gen": "gen", "ext_grid": "gen", "sgen": "sgen", "load": "load"}
 
 
-def _tame(recipe, keep_slack_gen):
+def _tame(recipe, mode, eq_type):
     """keep the recipe inside the domain get_equivalent is written for (see ASSUMPTIONS)"""
     slack_buses = set()
+    kind_at = {}
     out = []
+    for b in recipe["buses"]:
+        b.pop("in_service", None)               # inactive buses: "suggested to remove them" before get_equivalent
     for e in recipe["el"]:
-        e.pop("tap_step_degree", None)      # tap phase shifters: same limitation as shift_degree
-        if e["t"] == "gen" and e.get("slack") and not keep_slack_gen:
+        e.pop("tap_step_degree", None)          # tap phase shifters: same limitation as shift_degree
+        if e["t"] == "gen" and e.get("slack") and mode != "slack-gen":
             e = {"t": "ext_grid", "bus": e["bus"], "vm_pu": e["vm_pu"], "va_degree": 0.0}
         if e["t"] == "ext_grid" or (e["t"] == "gen" and e.get("slack")):
-            if e["bus"] in slack_buses:     # "only one slack at individual bus" (assert in ward_generation.py)
+            if e["bus"] in slack_buses:         # "only one slack at individual bus" (assert in ward_generation.py)
                 continue
             slack_buses.add(e["bus"])
+            e.pop("in_service", None)
+        if eq_type == "rei" and mode != "rei-asymmetric-impedance" and e["t"] == "impedance":
+            e.pop("rtf_pu", None), e.pop("xtf_pu", None)    # known finding rei/asymmetric-impedance
+        if mode == "impedance-switch" and e["t"] == "switch" and e["et"] == "b" and "z_ohm" not in e:
+            e["z_ohm"] = round(0.02 * recipe["buses"][e["bus"]]["vn_kv"] ** 2 / netgen.LEVELS[recipe["buses"][e["bus"]]["vn_kv"]]["s"], 6)
+        if eq_type == "rei" and mode != "rei-mixed-bus" and e["t"] in REI_KIND:
+            # one kind of REI power element per bus (several kinds at one external bus: known finding rei-eq-switch)
+            if kind_at.setdefault(e["bus"], REI_KIND[e["t"]]) != REI_KIND[e["t"]]:
+                continue
         out.append(e)
     recipe["el"] = out
     return recipe
 
 
 @st.composite
-def _case(draw, tier, profile=None):
-    pname = profile or draw(st.sampled_from(sorted(PROFILES)))
-    recipe = draw(netgen.grid(PROFILES[pname]))
-    _tame(recipe, keep_slack_gen=draw(st.integers(0, 5)) == 0)
-    eq_type = draw(st.sampled_from(["ward", "xward", "rei"]))
+def _case(draw, tier, mode=None):
+    mode = mode or draw(netgen.weighted(MODE_WEIGHTS))
+    if mode in ("rei-mixed-bus", "rei-asymmetric-impedance"):
+        eq_type = "rei"
+    elif mode in ("phase-shift", "detached-boundary"):
+        eq_type = draw(st.sampled_from(["ward", "xward"]))
+    else:
+        eq_type = draw(st.sampled_from(["ward", "xward", "rei"]))
+    recipe = _tame(draw(netgen.grid(MODES[mode])), mode, eq_type)
     kw = {}
     if eq_type == "rei":
         for k in ("sgen_separate", "load_separate", "gen_separate"):
             if draw(st.integers(0, 2)):
                 kw[k] = draw(st.booleans())
-    return {"recipe": recipe, "profile": pname, "seed": draw(st.integers(0, 40)), "radius": draw(st.integers(0, 2)),
+    return {"recipe": recipe, "mode": mode, "seed": draw(st.integers(0, 40)), "radius": draw(st.integers(0, 2)),
             "variant": draw(st.sampled_from(["inner", "outer"])), "give": draw(st.sampled_from(["one", "all"])),
-            "close": draw(st.sampled_from([True, True, False])), "prune": draw(st.integers(0, 6)) != 0,
+            "close": draw(st.sampled_from([True, True, False])), "prune": mode != "detached-boundary",
             "eq_type": eq_type, "kw": kw}
 
 
@@ -93,14 +163,18 @@ def graph_of(net):
     """adjacency over in-service buses: in-service branches without an open switch at a side, closed bus-bus switches"""
     live = set(net.bus.index[net.bus.in_service.values])
     adj = {b: set() for b in live}
-    bb = {b: set() for b in live}
+    bb = {b: set() for b in live}       # closed bus-bus switches (get_equivalent extends the boundary along them)
+    bb0 = {b: set() for b in live}      # ... without impedance: one electrical node
     opened = set()
     sw = net.switch
-    for b, e, et, cl in zip(sw.bus.values, sw.element.values, sw.et.values, sw.closed.values):
+    zs = sw["z_ohm"].fillna(0.0).values if "z_ohm" in sw else [0.0] * len(sw)
+    for b, e, et, cl, z in zip(sw.bus.values, sw.element.values, sw.et.values, sw.closed.values, zs):
         if et == "b":
             if cl and b in live and e in live:
                 adj[b].add(e), adj[e].add(b)
                 bb[b].add(e), bb[e].add(b)
+                if z == 0:
+                    bb0[b].add(e), bb0[e].add(b)
         elif not cl:
             opened.add((et, e, b))
 
@@ -124,7 +198,7 @@ def graph_of(net):
     for i, r in net.trafo3w.iterrows():
         if r.in_service:
             join([b for b in (r.hv_bus, r.mv_bus, r.lv_bus) if ("t3", i, b) not in opened])
-    return adj, bb
+    return adj, bb, bb0
 
 
 def _closure(start, adj, allowed=None):
@@ -141,7 +215,7 @@ def _closure(start, adj, allowed=None):
 
 def regions(net, case):
     """-> dict(boundary_given, internal_given, boundary, internal, external) or None if the network has no valid split"""
-    adj, bb = graph_of(net)
+    adj, bb, bb0 = graph_of(net)
     vm = net.res_bus.vm_pu
     supplied = sorted(int(b) for b in net.bus.index if b in adj and not math.isnan(vm.at[b]))
     if len(supplied) < 3:
@@ -154,6 +228,9 @@ def regions(net, case):
     for k in range(len(supplied)):          # the drawn seed bus first, then the following ones
         reg = _split(case, supplied[(case["seed"] + k) % len(supplied)], sup, adj, bb, slack)
         if reg is not None:
+            reg["fused"] = {int(b): int(min(_closure([b], bb0))) for b in reg["boundary"]}
+            zsw = net.switch[(net.switch.et == "b") & net.switch.closed & (net.switch.z_ohm.fillna(0.0) > 0)]
+            reg["z_switch_at_boundary"] = bool((zsw.bus.isin(reg["boundary"]) & zsw.element.isin(reg["boundary"])).any())
             return reg
     return None
 
@@ -206,20 +283,114 @@ def _split(case, seed, sup, adj, bb, slack):
 
 
 GEN_TABLES = ("sgen", "gen", "ext_grid")
-LOAD_TABLES = ("load", "motor", "storage", "ward", "xward", "shunt", "asymmetric_load")
+LOAD_TABLES = ("load", "motor", "storage", "ward", "xward", "shunt")
+
+
+def _at(net, table, buses, extra=None):
+    """in-service rows of a bus element table at the given buses"""
+    tab = net[table]
+    if not len(tab):
+        return tab
+    m = tab.bus.isin(set(buses)) & tab.in_service
+    if extra is not None:
+        m &= extra(tab)
+    return tab[m]
 
 
 def _has(net, tables, buses):
-    bs = set(buses)
-    for t in tables:
-        tab = net[t]
-        if len(tab) and (tab.bus.isin(bs) & tab.in_service).any():
-            return True
-    return False
+    return any(len(_at(net, t, buses)) for t in tables)
 
 
 def _angle_diff(a, b):
     return abs((a - b + 180.0) % 360.0 - 180.0)
+
+
+def facts(net, reg, case, net_eq=None):
+    """facts about the input (and the returned equivalent) that name the known root causes, in priority order"""
+    eq = case["eq_type"]
+    I, B, E = set(reg["internal"]), set(reg["boundary"]), set(reg["external"])
+    f = []
+    if (net.trafo.in_service & (net.trafo.shift_degree != 0)).any() or \
+            (net.trafo3w.in_service & ((net.trafo3w.shift_mv_degree != 0) | (net.trafo3w.shift_lv_degree != 0))).any():
+        f.append("phase-shift-trafo")
+    if eq == "xward":
+        # the xward method grounds the external PV buses (Y = 1e8): parts of the retained network that are coupled to the
+        # reference only through external PV buses lose the coupling, their angle is left (nearly) undetermined
+        adj = graph_of(net)[0]
+        pv = set(net.gen.bus[net.gen.in_service].values) | set(net.ext_grid.bus[net.ext_grid.in_service].values)
+        allowed = (I | B | E) - (pv & E)
+        slack = (set(net.ext_grid.bus[net.ext_grid.in_service].values) | set(net.gen.bus[net.gen.in_service & net.gen.slack].values)) & (I | B)
+        if (I | B) - _closure(slack, adj, allowed=allowed):
+            f.append("xward-boundary-buses-coupled-only-through-external-pv-buses")
+    if len(net.gen) and (net.gen.slack & net.gen.in_service & net.gen.bus.isin(B)).any() and eq != "rei":
+        f.append("slack-gen-at-boundary")
+    if eq != "rei" and len(reg["boundary_given"]) > len({reg["fused"][b] for b in reg["boundary_given"]}):
+        f.append("fused-boundary-buses-given")
+    if len(_at(net, "xward", E)):
+        if eq == "rei":
+            f.append("xward-element-in-external-area")
+        elif net.sn_mva != 1:
+            f.append("xward-element-in-external-area/sn_mva!=1")
+    if eq != "rei" and len(_at(net, eq, B)):
+        f.append("%s-element-at-boundary-bus" % eq)
+    if eq == "rei" and (len(_at(net, "ward", B)) or len(_at(net, "xward", B))):
+        f.append("ward-or-xward-element-at-boundary-bus")
+    if reg["z_switch_at_boundary"]:
+        f.append("impedance-switch-between-boundary-buses")
+    if eq == "rei" and len(net.impedance):
+        im = net.impedance[net.impedance.in_service & ((net.impedance.rft_pu != net.impedance.rtf_pu) | (net.impedance.xft_pu != net.impedance.xtf_pu))]
+        if (im.from_bus.isin(E) | im.to_bus.isin(E)).any():
+            f.append("asymmetric-impedance-at-external-bus")
+    if eq == "rei":
+        if len(_at(net, "load", E, lambda t: (t.const_z_p_percent != 0) | (t.const_i_p_percent != 0) |
+                   (t.const_z_q_percent != 0) | (t.const_i_q_percent != 0))):
+            f.append("zip-load-in-external-area")
+        if len(_at(net, "storage", E, lambda t: ((t.p_mw != 0) | (t.q_mvar != 0)) & (t.scaling != 0))):
+            f.append("storage-in-external-area")
+        if net_eq is not None and len(net_eq.switch) and (net_eq.switch.name.astype(str) == "eq_switch").any():
+            f.append("rei-buses-of-one-external-bus-fused/shunts-dropped")
+    # branch with an open switch between an internal and an external bus (no topological connection, but the branch
+    # hangs on one of the two areas)
+    sw = net.switch
+    for et, tab, cols in (("l", "line", ("from_bus", "to_bus")), ("t", "trafo", ("hv_bus", "lv_bus")),
+                          ("t3", "trafo3w", ("hv_bus", "mv_bus", "lv_bus"))):
+        for idx in set(sw.element[(sw.et == et) & ~sw.closed].values):
+            if idx in net[tab].index and net[tab].at[idx, "in_service"]:
+                ends = {int(net[tab].at[idx, c]) for c in cols}
+                if ends & I and ends & E:
+                    f.append("open-ended-branch-between-internal-and-external-bus")
+                    break
+        else:
+            continue
+        break
+    if eq == "xward" and reg["detached_boundary"]:
+        f.append("boundary-bus-without-external-neighbour")
+    return f
+
+
+def _cause(net, reg, case, e):
+    """root-cause class of an exception of get_equivalent from facts about the input (known shapes), else 'other'"""
+    where = exc_sig(e)
+    E = set(reg["external"])
+    f = facts(net, reg, case)
+    if where == "IndexError@grid_equivalents/rei_generation.py:_create_net_zpbn":
+        # an REI bus of a kind (gen/load) is created for ext_grids / motors, but net[kind] has no row at an external bus
+        gen_like = len(_at(net, "ext_grid", E)) or len(_at(net, "xward", E))
+        if gen_like and len(net.gen) and not net.gen.bus.isin(E).any():
+            return "rei-kind-without-original-element/gen"
+        if len(_at(net, "motor", E)) and len(net.load) and not net.load.bus.isin(E).any():
+            return "rei-kind-without-original-element/load"
+    want = {"ValueError@grid_equivalents/ward_generation.py:_replace_external_area_by_wards": ("slack-gen-at-boundary", "ward-element-at-boundary-bus"),
+            "ValueError@grid_equivalents/ward_generation.py:_replace_external_area_by_xwards": ("slack-gen-at-boundary", "xward-element-at-boundary-bus"),
+            "ValueError@grid_equivalents/ward_generation.py:_calculate_ward_and_impedance_parameters": ("fused-boundary-buses-given",),
+            "ValueError@build_bus.py:_calc_pq_elements_and_add_on_ppc": ("zip-load-in-external-area",),
+            "FloatingPointError@pypower/makeYbus.py:branch_vectors": ("boundary-bus-without-external-neighbour",)}
+    for k in want.get(where, ()):
+        if k in f:
+            return k
+    if "phase-shift-trafo" in f:
+        return "phase-shift-trafo"
+    return "other"
 
 
 def check(case):
@@ -230,16 +401,17 @@ def check(case):
     eq_type = case["eq_type"]
     net, maps = netgen.build(recipe)
     sn = recipe.get("sn_mva", 1.0)
-    res.label("eq:" + eq_type, "profile:" + case.get("profile", "?"))
+    res.label("eq:" + eq_type, "mode:" + case.get("mode", "?"))
     try:
         with silence():
             pp.runpp(net, calculate_voltage_angles=True, tolerance_mva=pf_tol(sn), max_iteration=40)
     except Exception as e:
         kind, what = pf_outcome(e)
-        if kind == "skip":
-            res.skipped = what
-        else:
-            res.skipped = "original-pf-" + what
+        res.skipped = what if kind == "skip" else "original-pf-" + what
+        return res
+    if net.res_bus.vm_pu.isnull().any():
+        # "There are some inactive buses. It is suggested to remove them ... before starting the grid equivalent calculation."
+        res.skipped = "unsupplied-buses"
         return res
     reg = regions(net, case)
     if reg is None:
@@ -265,76 +437,87 @@ def check(case):
             diffs.append("result table %s changed" % t)
     if diffs:
         res.fail("original-changed/%s%s" % (eq_type, "/raised" if raised is not None else ""), diffs=diffs[:6])
+    ext = reg["external"]
+    has_load, has_gen = _has(net, LOAD_TABLES, ext), _has(net, GEN_TABLES, ext)
     if raised is not None:
         kind, what = pf_outcome(raised)
         if kind == "skip" and what == "not-converged":
             res.skipped = "equivalent-not-converged"
         else:
-            res.fail("raised/%s/%s/%s" % (eq_type, exc_sig(raised), _cause(net, reg, eq_type, raised)),
+            res.fail("raised/%s/%s/%s" % (eq_type, exc_sig(raised), _cause(net, reg, case, raised)),
                      error=repr(raised)[:300], regions=_short(reg), kw=case["kw"])
         return res
     if net_eq is None:
         res.fail("returned-None/" + eq_type, regions=_short(reg))
         return res
     # --- power flow on the equivalent
+    f = facts(net, reg, case, net_eq)
     try:
         with silence():
             pp.runpp(net_eq, calculate_voltage_angles=True, tolerance_mva=pf_tol(sn), max_iteration=40)
     except Exception as e:
         kind, what = pf_outcome(e)
-        res.fail("eq-pf-failed/%s/%s" % (eq_type, what), error=repr(e)[:300], regions=_short(reg))
+        res.fail("eq-pf-failed/%s/%s/%s" % (eq_type, what, f[0] if f else "other"), error=repr(e)[:300], regions=_short(reg))
         return res
-    keep = reg["internal"] + reg["boundary"]
-    missing = [b for b in keep if b not in net_eq.bus.index]
+    missing, worst = _compare(net, net_eq, reg)
     if missing:
         res.fail("bus-missing-in-equivalent/" + eq_type, missing=missing, regions=_short(reg))
         return res
+    if 1.0 < worst[0] <= 100.0:
+        # within 100x of the tolerance: the power flows inside get_equivalent stop at 1e-8 / 1e-6 (p.u. mismatch); repeat
+        # with the same power flow function at a tight tolerance before it counts (DESIGN.md sec. 5 rule 5)
+        def tight(n, **kwargs):
+            kwargs["tolerance_mva"] = pf_tol(sn)
+            kwargs["max_iteration"] = 100
+            pp.runpp(n, **kwargs)
+            return n
+        try:
+            with silence():
+                net_eq2 = get_equivalent(net, eq_type, list(reg["boundary_given"]), list(reg["internal_given"]),
+                                         return_internal=True, runpp_fct=tight, **case["kw"])
+                pp.runpp(net_eq2, calculate_voltage_angles=True, tolerance_mva=pf_tol(sn), max_iteration=40)
+            missing2, worst2 = _compare(net, net_eq2, reg)
+            if not missing2 and worst2[0] <= 1.0:
+                res.label("tolerance-limited")
+                worst = worst2
+        except Exception:
+            pass
+    if worst[0] > 1.0:
+        b, dvm, dva = worst[1]
+        res.fail("voltage-differs/%s/%s" % (eq_type, f[0] if f else "other"), bus=b,
+                 where="boundary" if b in reg["boundary"] else "internal", dvm=dvm, dva=dva, facts=f,
+                 regions=_short(reg), kw=case["kw"])
+    res.nontrivial = bool(has_load and has_gen)
+    res.label("ext-buses:%s" % (len(ext) if len(ext) < 4 else "4+"), "boundary:%s" % min(len(reg["boundary"]), 3))
+    res.label("dev<1e-%d" % min(12, max(0, int(-math.log10(max(worst[0] * 1e-6, 1e-12))))))
+    if res.nontrivial:
+        res.label("ext-load+gen")
+    if _has(net, ("ext_grid",), ext):
+        res.label("ext-ext_grid")
+    if net.bus.vn_kv.loc[ext + reg["boundary"]].nunique() > 1:
+        res.label("ext-trafo")
+    for x in f:
+        res.label("fact:" + x)
+    for k, v in sorted(case["kw"].items()):
+        res.label("%s=%s" % (k, v))
+    return res
+
+
+def _compare(net, net_eq, reg):
+    keep = reg["internal"] + reg["boundary"]
+    missing = [b for b in keep if b not in net_eq.bus.index]
     worst = (0.0, None)
+    if missing:
+        return missing, worst
     for b in keep:
         dvm = abs(net_eq.res_bus.at[b, "vm_pu"] - net.res_bus.at[b, "vm_pu"])
         dva = _angle_diff(net_eq.res_bus.at[b, "va_degree"], net.res_bus.at[b, "va_degree"])
         if math.isnan(dvm) or math.isnan(dva):
             dvm = dva = float("inf")
         m = max(dvm / TOL_VM, dva / TOL_VA)
-        if m > worst[0]:
+        if m >= worst[0]:
             worst = (m, (int(b), dvm, dva))
-    if worst[0] > 1.0:
-        b, dvm, dva = worst[1]
-        res.fail("voltage-differs/%s" % eq_type, bus=b, where="boundary" if b in reg["boundary"] else "internal",
-                 dvm=dvm, dva=dva, regions=_short(reg), kw=case["kw"])
-    ext = reg["external"]
-    has_load, has_gen = _has(net, LOAD_TABLES, ext), _has(net, GEN_TABLES, ext)
-    res.nontrivial = has_load and has_gen
-    res.label("ext-buses:%s" % (len(ext) if len(ext) < 4 else "4+"), "boundary:%s" % min(len(reg["boundary"]), 3))
-    if has_load and has_gen:
-        res.label("ext-load+gen")
-    if _has(net, ("ext_grid",), ext) or (len(net.gen) and (net.gen.bus.isin(ext) & net.gen.slack & net.gen.in_service).any()):
-        res.label("ext-slack")
-    if net.bus.vn_kv.loc[ext].nunique() > 1 or set(net.bus.vn_kv.loc[ext]) != set(net.bus.vn_kv.loc[reg["boundary"]]):
-        res.label("ext-trafo")
-    if len(reg["component"]) < len(net.bus):
-        res.label("unsupplied-or-second-island")
-    for k, v in sorted(case["kw"].items()):
-        res.label("%s=%s" % (k, v))
-    return res
-
-
-def _cause(net, reg, eq_type, e):
-    """root-cause class of an exception of get_equivalent from facts about the input (known shapes), else 'other'"""
-    where = exc_sig(e)
-    bnd, ext = set(reg["boundary"]), set(reg["external"])
-    slack_gen_bnd = len(net.gen) and (net.gen.slack & net.gen.in_service & net.gen.bus.isin(bnd)).any()
-    if where.startswith("ValueError@grid_equivalents/ward_generation.py:_replace_external_area_by_") and slack_gen_bnd \
-            and "duplicate labels" in str(e):
-        return "slack-gen-at-boundary"
-    if where == "IndexError@grid_equivalents/rei_generation.py:_create_net_zpbn":
-        eg_ext = (net.ext_grid.in_service & net.ext_grid.bus.isin(ext)).any()
-        gen_ext = len(net.gen) and net.gen.bus.isin(ext).any()
-        if eg_ext and len(net.gen) and not gen_ext:
-            return "external-ext_grid-but-no-external-gen"
-    if where.startswith("FloatingPointError@") and eq_type == "xward" and reg["detached_boundary"]:
-        return "boundary-bus-without-external-neighbour"
-    return "other"
+    return missing, worst
 
 
 def _short(reg):
